@@ -86,8 +86,8 @@ Print Assumptions source_tables_are_documented.
 Theorem pins :
   (pin_ParseDurationUnitFormat, pin_parse_duration, pin_parse_date, pin_iso_utc_time_to_seconds,
    pin_parse_abbreviated_size, pin_abbreviate_space)
-  = ("e60451526ff2414a", "1585f90ced9cf557", "a7f7f872c8ec251b", "e6004979360ddcc2",
-     "90d09f791969c62a", "fb656703568ea414")%string /\
+  = ("e60451526ff2414a", "693d444aee709583", "ec2189f6a5d6742e", "d07f2764f994da2a",
+     "e478f6b709c0fba5", "fb656703568ea414")%string /\
   (duration_regex_template, duration_regex_flags, date_regex, date_regex_flags, date_regex_method,
    size_regex, size_regex_flags)
   = ("^\s*(\d+)\s*({unit_pattern})\s*$", "ASCII|IGNORECASE", "(\d{4})-(\d{2})-(\d{2})", "ASCII", "fullmatch",
